@@ -191,13 +191,27 @@ func universeWriteScan(p *core.Program, r *core.Report, rule string, only map[*c
 		if core.RelPkg(f.Pkg.PkgPath) != "pkg/types" || root.Decl == nil || root.Decl.Recv == nil {
 			continue
 		}
-		rt := core.NamedTypeName(f.Info().TypeOf(root.Decl.Recv.List[0].Type))
-		if rt != core.G("pkg/types.pkgInfo") && rt != core.G("pkg/types.Universe") {
+		rtT := f.Info().TypeOf(root.Decl.Recv.List[0].Type)
+		rt := core.NamedTypeName(rtT)
+		if rt != core.G("pkg/types.pkgInfo") && rt != core.G("pkg/types.Universe") && !embedsUniverseRecord(rtT) {
 			continue
 		}
 		n++
 		info := f.Info()
+		if _, named := recvIdent(root).(*ast.Ident); !named {
+			continue // receiver not named: nothing can be reached through it
+		}
 		recvObj := info.ObjectOf(recvIdent(root).(*ast.Ident))
+		// state behind a synchronised container is state all the same: a Store into a sync.Map of the record is a write
+		for _, c := range core.Calls(f.Body, false) {
+			name := core.CalleeName(info, c)
+			if !syncMutators[name] {
+				continue
+			}
+			if rcv := recvOf(c); rcv != nil && core.Mentions(info, rcv, recvObj) {
+				r.Bad(rule, f, "loaded package state is written after Load: "+core.ExprStr(c.Fun), c.Pos(), "a method reached while generators run stores into a synchronised container of the loaded universe ("+name+"): what later calls answer - also for other packages of the run - depends on the calls made before")
+			}
+		}
 		for _, w := range nonLocalWrites(f) {
 			onRecv := false
 			switch x := w.(type) {
@@ -922,4 +936,35 @@ func derivesFromCall(info *types.Info, body ast.Node, e ast.Expr, callee string,
 		return !found
 	})
 	return found
+}
+
+// syncMutators: methods that change what a synchronised container holds.
+var syncMutators = map[string]bool{
+	"(*sync.Map).Store": true, "(*sync.Map).LoadOrStore": true, "(*sync.Map).Delete": true, "(*sync.Map).Swap": true,
+	"(*sync.Map).CompareAndSwap": true, "(*sync.Map).CompareAndDelete": true, "(*sync.Map).LoadAndDelete": true, "(*sync.Map).Clear": true,
+	"(*sync.Pool).Put": true,
+}
+
+// embedsUniverseRecord: a struct type of pkg/types that embeds the package record or the universe (by pointer or by
+// value): its methods reach the loaded state through the promoted fields.
+func embedsUniverseRecord(t types.Type) bool {
+	t = types.Unalias(t)
+	if pt, ok := t.Underlying().(*types.Pointer); ok {
+		t = types.Unalias(pt.Elem())
+	}
+	st, ok := t.Underlying().(*types.Struct)
+	if !ok {
+		return false
+	}
+	for i := 0; i < st.NumFields(); i++ {
+		f := st.Field(i)
+		if !f.Embedded() {
+			continue
+		}
+		switch core.NamedTypeName(f.Type()) {
+		case core.G("pkg/types.pkgInfo"), core.G("pkg/types.Universe"):
+			return true
+		}
+	}
+	return false
 }
